@@ -884,8 +884,8 @@ def _fresh_list_expr(e: ast.AST) -> bool:
     return False
 
 
-def rule_engine_grows_only_its_own_lists(ctx: Ctx) -> None:
-    """C01-11: the engine appends continuations / completion events only to lists it built itself.  A list that came from model code (a
+def rule_engine_grows_only_its_own_lists(ctx: Ctx, rule: str = "C01-11") -> None:
+    """C01-11 (C02-8 as a dependency clause: a process that reuses its outbox list would be resumed early by the stale continuation): the engine appends continuations / completion events only to lists it built itself.  A list that came from model code (a
     yielded side-effect list, a handler's return value, a parameter) may be the model's own object and be handed over again: growing it in
     place would re-deliver the events appended earlier."""
     prog = ctx.prog
@@ -904,9 +904,67 @@ def rule_engine_grows_only_its_own_lists(ctx: Ctx) -> None:
             n += 1
             ok = x not in params and bool(defs) and all(_fresh_list_expr(d.value) for d in defs) and not other
             why = "" if ok else (f" — `{x}` is a parameter" if x in params else f" — `{x}` may be `{unparse(next((d.value for d in defs if not _fresh_list_expr(d.value)), None))[:80]}`" if defs else f" — `{x}` is not bound to a fresh list here")
-            ctx.ob("C01-11", "G6", fn, c, ok, f"{fn.qual}: `{x}.{c.func.attr}(…)` grows a list built in this function (`[]`, `list(…)`, a literal, a concatenation) — never a list object received from model code" + why)
-    need(n >= 3, f"C01-11: expected >= 3 list-growing sites in core/, found {n}")
-    ctx.floor("C01-11", 3)
+            ctx.ob(rule, "G6", fn, c, ok, f"{fn.qual}: `{x}.{c.func.attr}(…)` grows a list built in this function (`[]`, `list(…)`, a literal, a concatenation) — never a list object received from model code" + why)
+    need(n >= 3, f"{rule}: expected >= 3 list-growing sites in core/, found {n}")
+    ctx.floor(rule, 3)
+
+
+def rule_event_never_reschedules_itself(ctx: Ctx, rule: str = "C01-12") -> None:
+    """C01-12: inside the Event classes a bare `self` is only ever *passed to a callee* (`target.handle_event(self)`, `future._park(self)`).
+    It is never bound to another name, returned, or put into a list: whatever an `invoke` returns is pushed by the run loop, so an event
+    that hands itself back is delivered a second time — with its old creation index, ahead of events created since."""
+    prog = ctx.prog
+    mod = prog.module(EV)
+    n = 0
+    for fn in mod.all_functions:
+        if fn.cls is None or "self" not in fn.params():
+            continue
+        par = {}
+        for x in ast.walk(fn.node):
+            for ch in ast.iter_child_nodes(x):
+                par[ch] = x
+        for x in walk_scope(fn.node, include_root=False):
+            if isinstance(x, ast.Name) and x.id == "self" and isinstance(x.ctx, ast.Load) and not isinstance(par.get(x), ast.Attribute):
+                up = par.get(x)
+                # comparisons (`other is self`) and isinstance tests read identity only
+                ok = (isinstance(up, ast.Call) and any(a is x for a in up.args)) or isinstance(up, ast.Compare) or (isinstance(up, ast.keyword) and up.arg is not None)
+                n += 1
+                ctx.ob(rule, "G6", fn, enclosing_stmt(fn, x) or x, ok,
+                       f"{fn.qual}: a bare `self` is only passed to a callee or compared — never bound to a name, returned or collected, which would hand the "
+                       "event itself back to the scheduler (delivered twice, with its old tie-break index)")
+    need(n >= 2, f"{rule}: expected >= 2 bare uses of `self` in the Event classes (handle_event(self), _park(self)), found {n}")
+    ctx.floor(rule, 2)
+
+
+def rule_only_the_model_cancels(ctx: Ctx, rule: str = "C01-13") -> None:
+    """C01-13 (C02-9): cancellation is the model's decision.  Inside happysimulator/core/ nothing calls `.cancel()` on an event and
+    `_cancelled` is set to True only by `Event.cancel`; every other write initialises it to False.  An engine helper that withdrew an event
+    on its own (e.g. a forwarded copy of a cancelled request) would drop a live event that a process yielded or returned."""
+    prog = ctx.prog
+    n = 0
+    for fn in prog.all_functions("happysimulator/core/"):
+        for c in calls_in(fn.node):
+            if isinstance(c.func, ast.Attribute) and c.func.attr == "cancel" and not c.args and not c.keywords:
+                # a code-debugger / tracing object may have its own cancel(); only receivers that can be events matter: any local or
+                # parameter or attribute — the engine has no other cancellable objects today, so every such call is reported
+                ctx.ob(rule, "G6", fn, c, False, f"{fn.qual}: the engine calls `{unparse(c)}` — only model code may withdraw an event; an event the engine "
+                       "built for a process (a forwarded request, a continuation) must stay live")
+        for st in walk_stmts(fn.node.body):
+            tg = []
+            if isinstance(st, ast.Assign):
+                tg = st.targets
+            elif isinstance(st, (ast.AnnAssign, ast.AugAssign)):
+                tg = [st.target]
+            for t in tg:
+                if isinstance(t, ast.Attribute) and t.attr == "_cancelled":
+                    n += 1
+                    v = getattr(st, "value", None)
+                    is_true = isinstance(v, ast.Constant) and v.value is True
+                    is_false = isinstance(v, ast.Constant) and v.value is False
+                    ok = (is_true and fn.qual == "Event.cancel" and path_of(t.value) == "self") or (is_false and fn.name in ("__init__", "__post_init__") and path_of(t.value) == "self")
+                    ctx.ob(rule, "G6", fn, st, ok, f"{fn.qual}: `{norm_stmt(st)}` — `_cancelled` becomes True only in Event.cancel (on self) and is initialised False in constructors")
+    need(n >= 2, f"{rule}: expected the `_cancelled` writes of Event.__init__ and Event.cancel, found {n}")
+    ctx.floor(rule, 2)
 
 
 def run(ctx: Ctx) -> None:
@@ -918,6 +976,8 @@ def run(ctx: Ctx) -> None:
     ctx.guarded(rule_context_exit_and_clock)
     ctx.guarded(rule_inheritance_horizon_floor)
     ctx.guarded(rule_engine_grows_only_its_own_lists)
+    ctx.guarded(rule_event_never_reschedules_itself)
+    ctx.guarded(rule_only_the_model_cancels)
 
 
 # ------------------------------------------------------------------------------------------------
@@ -926,6 +986,9 @@ def run(ctx: Ctx) -> None:
 _LE_INSTANT = ("    def __le__(self, other: Instant) -> bool:\n        if not isinstance(other, Instant):\n            return NotImplemented\n"
                "        return self.nanoseconds <= other.nanoseconds")
 MUTANTS = [
+    ("zero-delay-continuation-requeues-itself", EV, "            next_continuation = ProcessContinuation(\n                time=resume_time,", "            next_continuation = self if resume_time == self.time else ProcessContinuation(\n                time=resume_time,", "C01-12"),
+    ("forward-propagates-cancellation", "happysimulator/core/entity.py", "        return Event(\n            time=self.now,\n            event_type=event_type or event.event_type,\n            target=target,\n            context=event.context,\n        )",
+     "        forwarded = Event(\n            time=self.now,\n            event_type=event_type or event.event_type,\n            target=target,\n            context=event.context,\n        )\n        if event.cancelled:\n            forwarded.cancel()\n        return forwarded", "C01-13"),
     ("continuation-appended-to-models-list", EV, "            result = list(side_effects)\n", "            result = side_effects if isinstance(side_effects, list) else list(side_effects)\n", "C01-11"),
     ("continuation-drops-daemon", EV, "        continuation = ProcessContinuation(\n            time=self.time,\n            event_type=self.event_type,\n            daemon=self.daemon,", "        continuation = ProcessContinuation(\n            time=self.time,\n            event_type=self.event_type,", "C01-10"),
     ("duration-from-epoch", SIM, "            self._end_time = self._start_time + duration", "            self._end_time = Instant.Epoch + duration", "C01-10"),
